@@ -352,9 +352,9 @@ def run(ctx):
     res.rule = RULE
     rng = ctx.rng
     cases = [c['case'] if 'case' in c and 'batches' not in c else c for c in ctx.corpus()]
-    for _ in range(ctx.n(700, 20000)):
+    for _ in range(ctx.n(2500, 40000)):
         cases.append(gen_case(rng))
-    for _ in range(ctx.n(120, 3000)):
+    for _ in range(ctx.n(300, 5000)):
         cases.append(gen_timed(rng))
     check_cases(ctx, res, cases)
     return res
